@@ -114,6 +114,9 @@ func newPoolRouter(hook bool) *poolRouter {
 			case "set":
 				c.Set("k", "v")
 			case "params":
+				if c.Params != nil { // write into the map the router handed out, then replace it
+					c.Params["dirty"] = "1"
+				}
 				c.Params = rux.Params{"dirty": "1", "id": "x"}
 			case "error":
 				c.AddError(errors.New("e"))
@@ -136,6 +139,7 @@ func newPoolRouter(hook bool) *poolRouter {
 	boom := func(c *rux.Context) { panic("boom") }
 	r.GET("/s", func(c *rux.Context) { c.WriteString("s") })
 	r.GET("/d/{id}", func(c *rux.Context) { c.WriteString("d" + c.Param("id")) })
+	r.GET("/o[.html]", func(c *rux.Context) { c.WriteString("o") }) // matched by regex, no variables
 	r.POST("/p", func(c *rux.Context) {})
 	r.GET("/boom", boom)
 	if hook {
@@ -145,7 +149,7 @@ func newPoolRouter(hook bool) *poolRouter {
 }
 
 func (pr *poolRouter) serve(q *poolReq) (obs *poolObs, code int, body string) {
-	path := map[string]string{"static": "/s", "dynamic": "/d/7", "notfound": "/missing", "notallowed": "/p", "panic": "/boom",
+	path := map[string]string{"static": "/s", "dynamic": "/d/7", "optional": "/o", "notfound": "/missing", "notallowed": "/p", "panic": "/boom",
 		"panichook": "/boom", "foreign": "/s"}[q.Kind]
 	w := httptest.NewRecorder()
 	var rw http.ResponseWriter = w
